@@ -1,6 +1,8 @@
 import Fundraising.Model.Match
 /-
-  The module's OWN invariants (keeper/invariants.go, registered with the crisis module):
+  The module's OWN invariants (keeper/invariants.go; `keeper.RegisterInvariants` would register them
+  with the crisis module — `AppModule.RegisterInvariants` is empty, so only the simulation and the
+  harness run them):
   `SellingPoolReserveAmountInvariant`, `PayingPoolReserveAmountInvariant`,
   `VestingPoolReserveAmountInvariant`, and `AllInvariants` (the first that is broken).
 
